@@ -321,6 +321,17 @@ class OpsMixin:
                 if ctor is not None:
                     return ctor(args, kwargs, node, frame)
             return self.instantiate(fn, args, kwargs, node, frame)
+        if isinstance(fn, External) and fn.name == "warnings.warn":
+            # a warning is an exception when the process runs with `-W error` / PYTHONWARNINGS=error
+            self.saw_warn = True
+            self.event("warning-issued", args=args, where=frame.where(node), node=node)
+            if getattr(self, "warnings_raise", False):
+                cat = args[1] if len(args) > 1 else kwargs.get("category")
+                if isinstance(cat, ClassVal):
+                    raise PyRaise(Instance(cat, tuple(args[:1])), node, frame.where(node))
+                from .standin import ExtExc
+                raise PyRaise(ExtExc("UserWarning", ("UserWarning", "Warning", "Exception", "BaseException")), node, frame.where(node))
+            return None
         if isinstance(fn, External) and fn.name in ("struct.unpack", "struct.pack") and args and isinstance(args[0], str):
             r = self.struct_model(fn.name, args, node, frame)
             if r is not None:
@@ -524,6 +535,14 @@ class OpsMixin:
                 r = self.decide(self.describe_cond(node), node, frame)
                 self.record_compare_fact(o, an, bn, r)
             return r
+        # bytes compared with str: always unequal, and an error under `python -bb`
+        if o in ("==", "!=") and ((isinstance(a, (bytes, Buf, View, SymBytes)) and isinstance(b, (str, SymStr)))
+                                  or (isinstance(b, (bytes, Buf, View, SymBytes)) and isinstance(a, (str, SymStr)))):
+            self.saw_bytes_str_compare = True
+            if getattr(self, "bytes_warning", False):
+                from .standin import ExtExc
+                raise PyRaise(ExtExc("BytesWarning", ("BytesWarning", "Warning", "Exception", "BaseException")), node, frame.where(node))
+            return o == "!="
         # identity-like equality of model objects
         if o in ("==", "!="):
             if isinstance(a, (ClassVal, FuncVal, ModuleVal, Instance, EnumVal, BoundMethod)) or \
